@@ -845,6 +845,7 @@ func run(c *Ctx) error {
 	if err := c.Cases.Write(c.Out, vmlib.Header+"From C07 Require Import Model Run.\n", "c07obs", "c07obs_eqb"); err != nil {
 		return err
 	}
+	txGasStage(c)
 	// translator cross-check: the generated GasState.updateUsage (C07/Tie.v) against the compiled one
 	return fraglib.GasState(c, "updateUsage")
 }
